@@ -699,7 +699,74 @@ def r01_10(rep, prog):
     return n
 
 
+# ------------------------------------------------------------------ R01.11
+TOC_READERS = ('opus_packet_get_mode', 'opus_packet_get_bandwidth', 'opus_packet_get_samples_per_frame', 'opus_packet_get_nb_channels')
+
+
+def _len_ge1(facts, kl, validated_locals):
+    lo0 = any((a[0] == '<=' and a[1] == ('int', 0) and a[2] == kl) or (a[0] == '<' and a[1] == ('int', -1) and a[2] == kl) for a in facts)
+    ne0 = any(a[0] == '!=' and ((a[1] == kl and a[2] == ('int', 0)) or (a[2] == kl and a[1] == ('int', 0))) for a in facts)
+    ge1 = any((a[0] == '<=' and a[1] == ('int', 1) and a[2] == kl) or (a[0] == '<' and a[1] == ('int', 0) and a[2] == kl) for a in facts)
+    via = any(a[0] in ('<=', '<') and a[1][0] == 'int' and a[1][1] >= -1 + (a[0] == '<=') * 1 - 1 and a[2] in validated_locals for a in facts)
+    return ge1 or (lo0 and ne0) or via
+
+
+def r01_11(rep, prog):
+    """the TOC helpers (mode / bandwidth / samples per frame / channels) take no length and read data[0]: every function
+    that receives (packet, len) and calls one of them on that packet does so only where len >= 1 is established - by its own
+    test, or by the non-negative result of a callee that is itself shown to return non-negative values only under len >= 1."""
+    # callees G(packet, len) whose non-negative returns are dominated by len >= 1
+    validating = set()
+    for g in prog.functions_all:
+        if not g.file.startswith('src/'):
+            continue
+        pl = [i for i, q in enumerate(g.params) if q['name'] == 'len']
+        if not pl:
+            continue
+        cg = cfgm.CFG(g)
+        rets = T.returns_of(cg)
+        ok = bool(rets)
+        for b, i, s_ in rets:
+            v = sx.int_val(sx.strip(s_[1])) if len(s_) > 1 else None
+            if v is not None and v < 0:
+                continue
+            if not _len_ge1(T.stable_facts(cg, b, i), ('param', pl[0]), set()):
+                ok = False
+        if ok:
+            validating.add(g.name)
+    n = 0
+    for f in prog.functions_all:
+        if not f.file.startswith('src/'):
+            continue
+        pl = [i for i, q in enumerate(f.params) if q['name'] == 'len']
+        if not pl:
+            continue
+        cg = cfgm.CFG(f)
+        vloc = set()
+        for l in f.locals.values():
+            for lv, r in decide.find_assign(f, l['name']):
+                rr = sx.strip(r)
+                if sx.kind(rr) == 'call' and sx.callee_name(rr) in validating and any(sx.key(sx.strip(a)) == ('param', pl[0]) for a in rr[2]):
+                    vloc.add(('local', l['id']))
+        for b, i, c in T.calls_to(cg, TOC_READERS):
+            if sx.kind(sx.strip(c[2][0])) != 'param':
+                continue
+            n += 1
+            rep.functions.add(f.name)
+            facts = T.stable_facts(cg, b, i)
+            inst = '%s:%s reads the TOC byte (%s) only when the packet has one' % (prog.config, f.name, sx.callee_name(c))
+            where = '%s:%s' % (f.file, sx.line(c))
+            if _len_ge1(facts, ('param', pl[0]), vloc):
+                rep.holds('R01.2', inst, where, 'len >= 1 from %s' % [T.show_atom(a) for a in facts][:3])
+            else:
+                rep.violated('R01.2', inst, where, 'no test of len precedes the read of data[0]: with len <= 0 one byte outside the packet is read (facts here: %s)' % [T.show_atom(a) for a in facts][:3],
+                             key='%s:toc-read:%s' % (f.name, sx.callee_name(c)))
+    return n
+
+
 def check(rep, prog, tier):
+    if r01_11(rep, prog) < 8:
+        rep.unresolved('R01.2', 'fewer than 8 TOC-helper calls on a (packet, len) pair found')
     r01_10(rep, prog)
     pt = PointsTo(prog)
     r01_1(rep, prog)
